@@ -747,20 +747,7 @@ impl World {
         }
         for (rb, (r, mchain)) in &exp {
             let wchain = got[rb];
-            // every held secret must be allowed (mandatory or optional) ...
-            let allowed: Vec<&WSk> = mchain.iter().filter_map(|(v, _)| self.ver_sk.get(v)).collect();
-            for s in wchain.iter() {
-                if !allowed.iter().any(|a| a.sk == s.sk) {
-                    let p = if prop == "C04" || prop == "C05" { prop } else { "C05" };
-                    self.finding(
-                        p,
-                        format!("usk-holds-removed-or-foreign-secret:{what}"),
-                        format!("right {r:?}: the key holds a secret that is neither newly granted nor still in the master key ({} held, {} allowed)", wchain.len(), allowed.len()),
-                    );
-                    return;
-                }
-            }
-            // ... every mandatory version must be present ...
+            // every mandatory version must be present ...
             for (v, mandatory) in mchain {
                 if *mandatory {
                     if let Some(s) = self.ver_sk.get(v) {
@@ -774,6 +761,26 @@ impl World {
                             return;
                         }
                     }
+                }
+            }
+            // ... every held secret must be allowed (mandatory or optional) ...
+            let allowed: Vec<&WSk> = mchain.iter().filter_map(|(v, _)| self.ver_sk.get(v)).collect();
+            for s in wchain.iter() {
+                if !allowed.iter().any(|a| a.sk == s.sk) {
+                    let p = if prop == "C04" || prop == "C05" {
+                        prop
+                    } else if (prop == "C01" || prop == "C02") && what == "keygen" {
+                        // a fresh key was given something else than the current secret
+                        "C01"
+                    } else {
+                        "C05"
+                    };
+                    self.finding(
+                        p,
+                        format!("usk-holds-removed-or-foreign-secret:{what}"),
+                        format!("right {r:?}: the key holds a secret that is neither newly granted nor still in the master key ({} held, {} allowed)", wchain.len(), allowed.len()),
+                    );
+                    return;
                 }
             }
             // ... and the chain is a sub-sequence of the master chain, newest first (right after
